@@ -738,6 +738,22 @@ func stdKeys() []*built {
 		case *ecdsa.PrivateKey:
 			d, err = sx.MarshalECPrivateKey(k)
 			add("sec1", n, d, err)
+			if n == "p256-0" || n == "p384-0" {
+				// the privateKey OCTET STRING with 1..4 superfluous leading zero octets (GnuTLS and others emit such
+				// keys; both parsers tolerate them): SEC1 form and the same wrapped in PKCS#8
+				size := (k.Curve.Params().BitSize + 7) / 8
+				for pad := 1; pad <= 4; pad++ {
+					priv := append(make([]byte, pad), k.D.FillBytes(make([]byte, size))...)
+					oid := der.OID(1, 2, 840, 10045, 3, 1, 7)
+					if n == "p384-0" {
+						oid = der.OID(1, 3, 132, 0, 34)
+					}
+					sec1 := der.Seq(der.Int(1), der.OctetString(priv), der.Explicit(0, oid))
+					add("sec1", fmt.Sprintf("%s privateKey padded with %d zero octets", n, pad), sec1, nil)
+					p8 := der.Seq(der.Int(0), der.Seq(der.OID(1, 2, 840, 10045, 2, 1), oid), der.OctetString(der.Seq(der.Int(1), der.OctetString(priv))))
+					add("pkcs8", fmt.Sprintf("%s EC privateKey padded with %d zero octets", n, pad), p8, nil)
+				}
+			}
 		default:
 			if rk, ok := rsaKey(p); ok {
 				add("pkcs1", n, sx.MarshalPKCS1PrivateKey(rk), nil)
